@@ -27,6 +27,11 @@ _p('C03',
    'compute_residual(stage=IT_CHECK) dominate one another in this order and the decision loop follows the residual loop, the handler stores nothing into level '
    'data; (R4) boolean normal form of check_convergence; (R5) writers of status.iter/done/force_continue; (R6) logged fields are the deciding fields.',
    ['the numeric value of the residual', 'that abs() is a norm (C13)', 'convergence-controller side effects on level data (HotRod discards a sweep by design)'])
+_p('C05',
+   'ONLY the structural clauses of the statement: (R1) the qmat generator is asked for exactly (num_nodes, node_type, quad_type, tleft, tright) - the affine map is delegated, nothing is rescaled afterwards - and '
+   'bad counts/intervals raise; (R2) left/right end-point flags as membership tables of the quadrature type, automatic collocation update when the right end is no node; (R3) Qmat/Smat are zeros(M+1,M+1) with '
+   'the generator Q / parent-class S (row differences of Q) in [1:,1:] and nothing else stored, nodes/weights are copies, no library code stores into them later; (R4) node distances.',
+   ['that nodes are increasing and inside the interval', 'exactness of weights, Q and S on polynomials', 'that S really is the row difference of Q inside qmat', 'affine covariance of the generator output - all properties of coefficients computed by the external qmat package at run time: NOT decided'])
 _p('C06',
    'Rules over run()/restart_block() of the three controllers: definitions reaching the carried value (None | u[0] of the first restarted step | uend of the last step), '
    'its use as third argument of restart_block and first element of the return; init_step copies through the datatype; block start time on both arms, later slots = '
